@@ -137,7 +137,15 @@ class Maker:
     def make(self, sh, name, idx=None):
         ip = self.ip
         if not isinstance(sh, Shape):
-            return sh  # a literal value used as a shape = constant
+            # a value template: instantiate the shapes found inside records / tuples, keep
+            # everything else as it is
+            if isinstance(sh, Rec):
+                return Rec(sh.cls, {k: self.make(v, f"{name}.{k}", idx) for k, v in sh.f.items()}, sh.mutable)
+            if isinstance(sh, tuple):
+                return tuple(self.make(v, f"{name}.{i}", idx) for i, v in enumerate(sh))
+            if isinstance(sh, list):
+                return [self.make(v, f"{name}.{i}", idx) for i, v in enumerate(sh)]
+            return sh
         k = sh.kind
         if k in ("int", "real", "bool", "str"):
             return Sym(self.const(name, k, idx), k)
